@@ -65,7 +65,8 @@ Agree ==
        THEN Begin /\ fdAnswered' = TRUE /\ UNCHANGED okSeen
        ELSE phase' = "closed" /\ out' = <<"close">> /\ UNCHANGED <<todo, cur, offered, okSeen, fdAnswered>>
 
-Data(kind) ==                       \* kind \in {"challenge", "garbage"}
+Data(kind) ==                       \* kind \in {"challenge", "garbage", "noid"}; noid: a well-formed challenge naming a
+                                    \* cookie that is not in the (readable) keyring file
     /\ Live
     /\ out' = CASE cur = "EXTERNAL" -> <<"DATA">>
                 [] cur = "DBUS_COOKIE_SHA1" -> IF kind = "challenge" /\ CookieOK THEN <<"DATA response">> ELSE <<"ERROR">>
@@ -89,7 +90,7 @@ Next ==
     \/ (\E k \in {"ok", "rejected"} : AfterClose(k))
     \/ Rejected \/ ErrorLine \/ Agree
     \/ \E g \in {"valid"} \cup BadGuids : Ok(g)
-    \/ \E k \in {"challenge", "garbage"} : Data(k)
+    \/ \E k \in {"challenge", "garbage", "noid"} : Data(k)
     \/ \E k \in {"word", "empty", "nontext", "begin"} : Unknown(k)
 
 Spec == Init /\ [][Next]_vars
